@@ -233,7 +233,8 @@ def run_pair(desc: dict):
     src = pat(seed, n)
     local0 = src[:desc['local0']] if desc.get('local0') is not None else None
     faults = [tuple(f) if f else None for f in desc.get('faults', [])]
-    P = H.Pair(src, faults, kbps_down=desc.get('kbps_down', 0), kbps_up=desc.get('kbps_up', 0), local0=local0)
+    P = H.Pair(src, faults, kbps_down=desc.get('kbps_down', 0), kbps_up=desc.get('kbps_up', 0), local0=local0,
+               lat_p=desc.get('lat_p', 0.02), lat_f=desc.get('lat_f', 0.02))
     findings = []
     wit = {'kind': 'p', 'desc': desc}
     try:
@@ -487,10 +488,14 @@ def gen_pairs(run: Run):
     for _ in range(ncut):
         n = rng.choice([1, 129, 8193, 3 * 8192 + 5, 3 * 8192 + 5])
         nf = rng.choice([1, 1, 2, 3])
+        kinds = ['reset'] if rng.random() < 0.7 else ['reset', 'eof']
         faults = []
         for _ in range(nf):
-            faults.append([rng.choice(['reset', 'reset', 'eof']), rng.choice([0, 1, 128, 8192, 8193, 16384, max(n - 1, 0), rng.randrange(0, n + 1)]) % (n + 1)])
-        out.append({'src': [rng.randrange(251), n], 'faults': faults, 'kbps_down': rng.choice([0, 0, 100]), 'kbps_up': rng.choice([0, 0, 100])})
+            faults.append([rng.choice(kinds), rng.choice([0, 1, 128, 8192, 8193, 16384, max(n - 1, 0), rng.randrange(0, n + 1)]) % (n + 1)])
+        # different one-way delays of the message connection and the file connection: the control messages
+        # (PeerUploadFailed, PeerTransferQueue, PeerTransferRequest) overtake / are overtaken by the break
+        out.append({'src': [rng.randrange(251), n], 'faults': faults, 'kbps_down': rng.choice([0, 0, 100]), 'kbps_up': rng.choice([0, 0, 100]),
+                    'lat_p': rng.choice([0.001, 0.02, 0.02, 0.3, 2.0]), 'lat_f': rng.choice([0.001, 0.02, 0.02, 0.3, 2.0])})
     return out
 
 
@@ -558,7 +563,7 @@ def run(run: Run):
             for f in fs:
                 run.add_finding(f)
             atts = [a for a in atts if not a.get('skipped')]
-            nontrivial = kind != 'cut-all' or any(0 < (s['sender'][1] or 0) for s in desc['sessions']) or True
+            nontrivial = kind.startswith('dishonest') or sum(len(a['exp'][4]) for a in atts) > 0
             run.case(desc, nontrivial=bool(nontrivial), kind='d:' + kind)
             run.count('download-attempts', len(atts))
             if atts:
@@ -583,24 +588,29 @@ def run(run: Run):
 
     log(f'[C04] single-side runs done {_time.time()-_t0:.1f}s')
     # 4. model vs implementation
+    # few, large shards: every coqc process pays the start-up of the standard library once
     texts, index = [], []
-    shard = 80
-    big = [r for r in drows if any(a['spec'][1] > 2000 for a in r[2])]
-    small = [r for r in drows if r not in big]
-    for i in range(0, len(small), shard):
-        texts.append(coq_dcases(small[i:i + shard]))
+
+    def shards(rows, render, weight, limit=150000, maxn=400):
+        cur, size = [], 0
+        for r in rows:
+            w = weight(r)
+            if cur and (size + w > limit or len(cur) >= maxn):
+                yield render(cur)
+                cur, size = [], 0
+            cur.append(r)
+            size += w
+        if cur:
+            yield render(cur)
+
+    big = lambda n: 4000 if n > 2000 else 0   # evaluation cost of long byte lists counted as text
+    for t in shards(drows, coq_dcases, lambda r: len(coq_dcases([r])) - 150 + sum(big(a['spec'][1]) for a in r[2])):
+        texts.append(t)
         index.append('d')
-    for i in range(0, len(big), 12):
-        texts.append(coq_dcases(big[i:i + 12]))
-        index.append('d')
-    ubig = [r for r in urows if r[1]['src'][1] > 2000]
-    usmall = [r for r in urows if r not in ubig]
-    for i in range(0, len(usmall), 200):
-        texts.append(coq_ucases(usmall[i:i + 200]))
+    for t in shards(urows, coq_ucases, lambda r: len(coq_ucases([r])) - 150 + big(r[1]['src'][1])):
+        texts.append(t)
         index.append('u')
-    for i in range(0, len(ubig), 12):
-        texts.append(coq_ucases(ubig[i:i + 12]))
-        index.append('u')
+    run.cov['coq_case_files'] = len(texts)
     nbad = 0
     try:
         outs = coq_eval_many('c04', texts, timeout=600)
